@@ -226,6 +226,8 @@ DescTable == [
     empty_plugin     |-> [t |-> ScenarioTargets, at |-> 1, v |-> "reject"],
     bool_key         |-> [t |-> {"http_yaml", "grpc_yaml"}, at |-> 1, v |-> "reject"],
     neg_weight       |-> [t |-> ScenarioTargets, at |-> 1, v |-> "reject"],
+    \* a weight that fits an int64 but makes the weighted ring absurd (2^62 next to 50: 2^61 + 25 ring entries)
+    huge_weight      |-> [t |-> ScenarioTargets, at |-> 1, v |-> "reject"],
     var_randint_eq   |-> [t |-> ScenarioTargets, at |-> 1, v |-> "either"],
     var_randint_ovf  |-> [t |-> ScenarioTargets, at |-> 1, v |-> "either"],
     var_randint_nan  |-> [t |-> ScenarioTargets, at |-> 1, v |-> "reject"],
